@@ -35,7 +35,7 @@ def required(tier):
     b = {'source:setigen': 30, 'source:foreign': 30, 'bits:8': 30, 'bits:4': 20, 'npol:1': 20, 'npol:2': 20, 'array': 10,
          'directio:on': 20, 'directio:off': 20, 'digitize:on': 30, 'digitize:off': 20, 'multi-file-input': 20, 'length:omitted': 10,
          'length:shorter': 10, 'length:longer': 10, 'aligned-header': 3, 'subblocks>=2': 40,
-         'second-recording-flipped-digitize': 30}
+         'second-recording-flipped-digitize': 30, 'lazy-unit-noise-estimate': 40}
     return {'buckets': b, 'counters': {'decode_blocks_compared': 200, 'gain_calls_observed': 400, 'samples_compared': 50000},
             'checks': 1000, 'nontrivial': 60}
 
@@ -155,8 +155,13 @@ def _run(stg, c, cfg, d, R):
     R.check(rvb.header_size == in_blocks[0]['header_bytes'] + in_blocks[0]['pad'], 'from_data-header_size', got=int(rvb.header_size),
             want=in_blocks[0]['header_bytes'] + in_blocks[0]['pad'])
     cstd = {}
+    lazy = (c['_idx'] % 4 == 1)      # the filterbank's unit-noise estimate is NOT prepared: the backend makes it lazily, mid-stream
+    if lazy:
+        R.bucket('lazy-unit-noise-estimate')
     for a in range(cfg['nants']):
         for p in range(cfg['npol']):
+            if lazy:
+                continue
             with common.quiet():
                 rvb.filterbank[a][p].estimate_channelized_stds(factor=300, seed=c['est_seed'] + 7 * a + p)
             cstd[(a, p)] = np.array(rvb.filterbank[a][p].channelized_stds, dtype=float).copy()
@@ -191,6 +196,15 @@ def _run(stg, c, cfg, d, R):
         finally:
             bd.detach()
         attach.restore_all()
+        if not cstd:
+            # lazily estimated by the backend with an unseeded generator: the value is whatever the filterbank objects hold now
+            for a_ in range(cfg['nants']):
+                for p_ in range(cfg['npol']):
+                    est_ = rvb.filterbank[a_][p_].channelized_stds
+                    if est_ is None:
+                        R.violate('unit-noise-estimate-never-made', antenna=a_, pol=p_)
+                        return
+                    cstd[(a_, p_)] = np.array(est_, dtype=float).copy()
         out_files = sorted(os.path.join(d, f) for f in os.listdir(d) if f.startswith(out_name + '.'))
         try:
             out_blocks = work_raw.read_blocks(out_files)
